@@ -49,7 +49,7 @@ Step(e) ==
                        \o " expected=" \o pending[e.id].expect)
     [] e.ev = "Quiet" ->
          IF ~Answered THEN Fail(e, "request-unanswered-at-quiescence")
-         ELSE IF ~Converges THEN
+         ELSE IF e.conv /\ ~Converges THEN       \* (conv = FALSE: the run is evaluated for C12 only, see to_trace)
               LET f == CHOOSE g \in File : published[g].set # Diag(g) IN
               Fail(e, "diagnostics-not-converged file=" \o f \o
                       (IF f \notin Reach THEN " stale-outside-workspace" ELSE IF Diag(f) \subseteq published[f].set THEN " stale-extra" ELSE " missing"))
